@@ -5,3 +5,4 @@ import Model.Gen.Timeout
 import Model.Gen.Inproc
 import Model.Codes
 import Model.Timeout
+import Model.Framing
